@@ -10,7 +10,9 @@ proof   : Props/C20.v over Lib/Cksum.v (+CksumProofs.v) and Lib/TinyRV0.v (+Tiny
     document"                                                  with the repo's assembler on every program), C20_x0_always_zero, C20_registers_stay_32bit,
                                                                C20_little_endian / load_after_store / store_frame, C20_final_state_unique,
                                                                C20_run_computes_final_state, C20_run_fuel_irrelevant (determinism),
-                                                               C20_outputs_prefix, C20_step_appends_at_most_one (manager sequence is append-only)
+                                                               C20_outputs_prefix, C20_step_appends_at_most_one (manager sequence is append-only);
+                                                               T-diff part (a2): every instruction form with boundary/random fields through the repo's
+                                                               assemble_inst and TinyRV0Inst (the FL/CL decoder) vs Coq encode/decode
    "for every program and every memory latency, stall          PARTIAL: NOT a theorem.  T-diff part (b): random terminating programs x timing
     probability and source/sink delays, ProcFL / ProcCL /      configurations are run on the real ProcFL, ProcCL, ProcRTL in the ex03 TestHarness;
     ProcRTL each deliver the same proc2mngr sequence and       the observed proc2mngr sequence, final data-memory image, every other changed word
